@@ -7,9 +7,9 @@ REG = {
         "rule": "random operator trees (2-9 nodes, all six operators, leaf sets incl. huge values, k from 0 to beyond 2**64, "
                 "alignments 1..64, divisors 1..2**20) built through the public BitLengthSet API, with 2-25 queries each; "
                 "a case is non-trivial if it has a composite node and at least one query; distinct = distinct (nodes, queries)",
-        "technique": "Lean 4 theorems over an executable model of the operator tree (induction over all trees, all divisors) + differential correspondence with the real BitLengthSet",
+        "technique": "Lean 4 theorems over an executable model of the operator tree (induction over all trees, all divisors), re-checked on every run against Lean definitions translated from _symbolic.py (py2lean + refinement theorem Bridge.refines) + differential correspondence with the real BitLengthSet",
         "level_text": "Every analytic answer (min, max, residues modulo any d>=1, fixed_length, is_aligned_at, numerical expansion) of the modelled operator tree is proved in Lean 4 to equal the mathematically defined set, for all trees, counts and divisors, and no assert can fire; the model is tied to _symbolic.py/_bit_length_set.py by running both on generated operation sequences on every run.",
-        "level_note": "Trusted: Lean kernel, axioms propext/Classical.choice/Quot.sound, Mathlib; the hand-written model is validated against the code by differential testing only (thousands of operator trees incl. k up to 2**64 per run), not proved equal to it; object aliasing is observed by re-queries only.",
+        "level_note": "Trusted: Lean kernel, axioms propext/Classical.choice/Quot.sound, Mathlib; the translator tools/py2lean.py and lean/PyLib.lean (Python ints as naturals with checked subtraction, sets as duplicate-free lists, explicit exceptions); every min/max/modulo/expand method of the six operator classes is translated from the working tree on every run and proved to refine the model and never to raise (Props/C01Gen.lean); the constructors, the memoisation wrapper and the BitLengthSet facade are hand-modelled and validated by differential testing (thousands of operator trees incl. k up to 2**64 per run); object aliasing is observed by re-queries only.",
         "partial": ["operand aliasing / cache transparency of the Python objects is a runtime notion: covered by re-queries in the correspondence only"],
         "assumptions": ["the Lean model Model/Bls.lean mirrors _symbolic.py (validated by the bls correspondence on every run)"],
     },
